@@ -11,14 +11,17 @@
 (*       Req(kind, failed) with kind \in Strict and failed sets sfailed;   *)
 (*       Put(what, n, ...) requires  sfailed => n = 0                      *)
 (* "index" = GET /mounts/<uuid>/blocks or /index on a keepstore server;    *)
-(* "collpage" = a collections list request with limit > 0.  A request      *)
+(* "collpage" / "collcount" = the collections list requests EachCollection *)
+(* issues with limit > 0 / limit = 0 (initial and final count): every GET  *)
+(* of the list API made by the scan is a "collection page" fetch           *)
+(* (coordinator's reading of the statement).  A request      *)
 (* "fails" when the harness answers it with HTTP 500, a transport error or *)
 (* a response cut short.  Sending an EMPTY trash or pull list asks nobody  *)
 (* to trash or pull a block (ClearTrashLists does that before the scan),   *)
 (* so n = 0 is always allowed.                                             *)
 (* The statement is silent about failures of other requests (service list, *)
-(* mounts, current user, discovery document, counting requests with        *)
-(* limit = 0, the trash/pull PUTs themselves) and about Run's return       *)
+(* mounts, current user, discovery document, the sanity count of null       *)
+(* modified_at, the trash/pull PUTs themselves) and about Run's return       *)
 (* value: Req of those kinds and Done(ok) are unconstrained.               *)
 (* (checks/C06.py reports "Run returned nil after a failed request" and    *)
 (* "lists sent after a non-strict failure" as drift.)                      *)
@@ -30,7 +33,7 @@ VARIABLES sfailed,   \* an index or collection-page request has failed
 
 cvars == <<sfailed, done>>
 
-Strict == {"index", "collpage"}
+Strict == {"index", "collpage", "collcount"}
 
 CInit == sfailed = FALSE /\ done = "no"
 
